@@ -32,9 +32,9 @@ EPS = 2.0**-52
 def intervals(tier, seed):
     rng = np.random.default_rng(seed + 505)
     out = [(0.0, 1.0)]
-    n = 7 if tier == 'quick' else 47
+    n = 9 if tier == 'quick' else 63
     for i in range(n):
-        kind = i % 6
+        kind = (i + 2) % 8  # the two extreme-width kinds come first so that the quick tier has them
         if kind == 0:
             a = float(rng.uniform(-10, 10))
             w = float(10 ** rng.uniform(-2, 1))
@@ -50,9 +50,16 @@ def intervals(tier, seed):
         elif kind == 4:
             a = float(rng.integers(-1000, 1000))
             w = float(rng.choice([0.1, 0.01, 0.3, 0.25, 1e-3]))
-        else:
+        elif kind == 5:
             a = float(10 ** rng.uniform(-6, -1))
             w = float(10 ** rng.uniform(-6, -1))
+        elif kind == 6:
+            # tiny steps (late stages of an adaptive run): every coefficient is O(width), nothing may be judged against an absolute scale
+            w = float(10 ** rng.uniform(-14, -8))
+            a = float(rng.choice([0.0, 1.0, -1.0])) * w * float(rng.integers(0, 50))
+        else:
+            w = float(10 ** rng.uniform(3, 8))
+            a = float(rng.uniform(-1, 1)) * w
         out.append((a, a + w))
     return out
 
